@@ -2067,13 +2067,15 @@ static int64_t eval3(Node *node, char ***label) {
   if (is_flonum(node->ty))
     return eval_double(node);
 
+  // Operands are evaluated left to right, so that the first error in
+  // the source text is the one reported.
   switch (node->kind) {
   case ND_ADD:
-    return eval2(node->lhs, label) + eval(node->rhs);
-  case ND_SUB:
-    return eval2(node->lhs, label) - eval(node->rhs);
-  case ND_MUL:
-    return eval(node->lhs) * eval(node->rhs);
+  case ND_SUB: {
+    int64_t lhs = eval2(node->lhs, label);
+    int64_t rhs = eval(node->rhs);
+    return (node->kind == ND_ADD) ? lhs + rhs : lhs - rhs;
+  }
   case ND_DIV:
   case ND_MOD: {
     int64_t lhs = eval(node->lhs);
@@ -2088,22 +2090,29 @@ static int64_t eval3(Node *node, char ***label) {
   }
   case ND_NEG:
     return -eval(node->lhs);
+  case ND_MUL:
   case ND_BITAND:
-    return eval(node->lhs) & eval(node->rhs);
   case ND_BITOR:
-    return eval(node->lhs) | eval(node->rhs);
   case ND_BITXOR:
-    return eval(node->lhs) ^ eval(node->rhs);
   case ND_SHL:
-    return eval(node->lhs) << eval(node->rhs);
-  case ND_SHR:
+  case ND_SHR: {
+    int64_t lhs = eval(node->lhs);
+    int64_t rhs = eval(node->rhs);
+    switch (node->kind) {
+    case ND_MUL: return lhs * rhs;
+    case ND_BITAND: return lhs & rhs;
+    case ND_BITOR: return lhs | rhs;
+    case ND_BITXOR: return lhs ^ rhs;
+    case ND_SHL: return lhs << rhs;
+    }
     if (node->ty->is_unsigned && node->ty->size == 8)
-      return (uint64_t)eval(node->lhs) >> eval(node->rhs);
-    return eval(node->lhs) >> eval(node->rhs);
+      return (uint64_t)lhs >> rhs;
+    return lhs >> rhs;
+  }
   case ND_EQ:
   case ND_NE:
   case ND_LT:
-  case ND_LE:
+  case ND_LE: {
     // Floating operands are compared as floating values.
     if (is_flonum(node->lhs->ty)) {
       long double lhs = eval_double(node->lhs);
@@ -2115,18 +2124,21 @@ static int64_t eval3(Node *node, char ***label) {
       default: return lhs <= rhs;
       }
     }
+    int64_t lhs = eval(node->lhs);
+    int64_t rhs = eval(node->rhs);
     if (node->kind == ND_EQ)
-      return eval(node->lhs) == eval(node->rhs);
+      return lhs == rhs;
     if (node->kind == ND_NE)
-      return eval(node->lhs) != eval(node->rhs);
+      return lhs != rhs;
     if (node->kind == ND_LT) {
       if (node->lhs->ty->is_unsigned)
-        return (uint64_t)eval(node->lhs) < eval(node->rhs);
-      return eval(node->lhs) < eval(node->rhs);
+        return (uint64_t)lhs < rhs;
+      return lhs < rhs;
     }
     if (node->lhs->ty->is_unsigned)
-      return (uint64_t)eval(node->lhs) <= eval(node->rhs);
-    return eval(node->lhs) <= eval(node->rhs);
+      return (uint64_t)lhs <= rhs;
+    return lhs <= rhs;
+  }
   case ND_COND:
     return eval_truth(node->cond) ? eval2(node->then, label) : eval2(node->els, label);
   case ND_COMMA:
